@@ -109,17 +109,19 @@ ThmOptimize ==
 (* A response is identified by the file whose content it carries: "in:<f>"  *)
 (* for files inside the root, "out:<f>" for the canaries, "" for none.      *)
 (***************************************************************************)
-\* kernel path walk below root: depth of the walk relative to root after each segment; names: "sub" descends,
-\* "..", ".", "" as usual; anything else is a file/unknown name. Returns "inside" | "outside".
+\* kernel path walk from the root directory over the fixed tree: the position is the depth below the root (>= 0), -1 = the
+\* directory <parent>, -2 = <parent2>, -3 = anywhere else (never comes back).  Names: "." and "" stay, ".." goes up,
+\* "root" below <parent> and "parent" below <parent2> come back towards the root, any other name descends (inside the root)
+\* or leaves for good (outside).  Returns "inside" | "outside".
 RECURSIVE Walk(_, _, _)
 Walk(segs, i, depth) ==
     IF i > Len(segs) THEN (IF depth >= 0 THEN "inside" ELSE "outside")
     ELSE LET s == segs[i] IN
-         IF depth < 0 /\ s \notin {"root", ".."} THEN "outside"            \* wandered off: only coming back through root counts
-         ELSE CASE s = ".." -> Walk(segs, i + 1, depth - 1)
-                [] s \in {".", ""} -> Walk(segs, i + 1, depth)
-                [] s = "root" /\ depth = -1 -> Walk(segs, i + 1, 0)        \* ../root/... re-enters the root
-                [] OTHER -> Walk(segs, i + 1, depth + 1)
+         IF s \in {".", ""} THEN Walk(segs, i + 1, depth)
+         ELSE IF depth >= 0 THEN Walk(segs, i + 1, IF s = ".." THEN depth - 1 ELSE depth + 1)
+         ELSE IF depth = -1 THEN Walk(segs, i + 1, IF s = ".." THEN -2 ELSE IF s = "root" THEN 0 ELSE -3)
+         ELSE IF depth = -2 THEN Walk(segs, i + 1, IF s = "parent" THEN -1 ELSE -3)
+         ELSE "outside"
 
 StaticFails(q, r) ==
     IF r.status = -1 THEN {"dropped_connection"}
